@@ -103,7 +103,7 @@ func registerSched() {
 		Assume: []string{"bounded restatement: no lasso within the cycle budget from the generated initial states; says nothing about longer periods",
 			"identical pods of one pod set are interchangeable in the canonical state"}})
 	var c07in *oracle.C07Input
-	run.Register(&SchedCheck{Id: "C07", Profile: "fairness", Quick: 400, Thorough: 8000,
+	run.Register(&SchedCheck{Id: "C07", Profile: "fairness", Quick: 1200, Thorough: 12000,
 		Hooks: func(c *spec.Case, sink *[]run.Violation, st *oracle.Stats) sched.Hooks {
 			return sched.Hooks{AfterOpen: func(ssn *framework.Session, rc *sched.RecCache) {
 				c07in = nil
